@@ -155,6 +155,9 @@ def classify(nodes, lockers):
                 out.append('SRetIfNoThread')
             elif cond == 'm_thread' and simple_ret:
                 out.append('SRetIfThread')
+            elif re.match(r'^!m_handler->BaseHandler::process\(\w+->lmsg\)$', cond) and simple_ret:
+                # customEvent leaves, before whatever follows, when the wrapped handler returned false
+                out.append('SRetIfRejected')
             elif cond == 'qApp' and not els:
                 out.append('SIfApp [%s]' % '; '.join(classify(thn, lockers)))
             elif cond == 'qApp->thread() != m_thread->thread()' and not els and len(thn) == 1 \
